@@ -162,6 +162,9 @@ func (c03) Gen(tier string, seed int64) []fw.Unit {
 			}
 		}
 	}
+	for _, q := range azBoundaryReqs(r, tier == "thorough", false) {
+		us = append(us, q.Unit("aztec", "capacity-boundary"))
+	}
 	// random bytes
 	for i := 0; i < 100*scale; i++ {
 		n := 1 + r.Intn(80)
@@ -184,6 +187,7 @@ func aztecObserve(c *fw.Ctx, req Req) (*refdec.AztecResult, bool) {
 		return nil, false
 	}
 	c.Cover("outcome", "accepted")
+	retainObserve(c, "aztec", o.bc, inner, 3)
 	g, err := grid2D(o.bc)
 	if err != nil {
 		c.Violation("aztec/image", err.Error(), inner, "")
@@ -241,4 +245,111 @@ func (p c03) Exec(c *fw.Ctx, u *fw.Unit) {
 	if c.Rand().Intn(60) == 0 {
 		c.Sample(map[string]any{"payload": short(string(req.S)), "len": len(req.S), "ecc_percent": req.int(0), "layers_requested": req.int(1), "compact": res.Compact, "layers": res.Layers, "data_words": res.DataWords, "total_words": res.TotalWords})
 	}
+}
+
+// azBoundaryReqs: payloads whose encoded size lands around the acceptance boundary of
+// every symbol size (and around the 64-word limit of compact symbols), in classes
+// with very different bit-stuffing behaviour.  Shared by C03, C10, C12 and C13.
+func azBoundaryReqs(r *rand.Rand, dense bool, autoOnly bool) []Req {
+	var out []Req
+	classes := 5
+	mk := func(class, n int) []byte {
+		switch class {
+		case 0:
+			return randBytes(r, n, upperAB)
+		case 1:
+			return randBytes(r, n, highAB)
+		case 2:
+			return bytes.Repeat([]byte{0xff}, n)
+		case 3:
+			return bytes.Repeat([]byte{0x00}, n)
+		default:
+			b := make([]byte, n)
+			for i := range b {
+				b[i] = []byte{0x00, 0xff, 0xff, 0x00, 0x7f, 0x80}[(i/3+i)%6]
+			}
+			return b
+		}
+	}
+	pcts := []int64{0, 5, 10, 14, 16, 23, 33, 50}
+	for l := int64(-4); l <= 32; l++ {
+		if autoOnly && l != 0 {
+			continue
+		}
+		comp, L := l < 0, int(l)
+		if comp {
+			L = -L
+		}
+		sizes := [][2]int{{0, L}}
+		if l == 0 {
+			// automatic sizing: aim at every size's boundary
+			sizes = nil
+			for k := 1; k <= 4; k++ {
+				sizes = append(sizes, [2]int{1, k})
+			}
+			for k := 1; k <= 32; k++ {
+				sizes = append(sizes, [2]int{0, k})
+			}
+			if !dense {
+				r.Shuffle(len(sizes), func(i, j int) { sizes[i], sizes[j] = sizes[j], sizes[i] })
+				sizes = sizes[:6]
+			}
+		} else if comp {
+			sizes[0][0] = 1
+		}
+		for _, sz := range sizes {
+			c2, L2 := sz[0] == 1, sz[1]
+			total := refdec.AztecTotalBits(c2, L2)
+			ws := 12
+			switch {
+			case L2 <= 2:
+				ws = 6
+			case L2 <= 8:
+				ws = 8
+			case L2 <= 22:
+				ws = 10
+			}
+			for class := 0; class < classes; class++ {
+				ps := pcts
+				if !dense {
+					ps = []int64{pcts[r.Intn(len(pcts))], pcts[r.Intn(5)]}
+				}
+				for _, pct := range ps {
+					b := 8.0
+					hdr := 21.0
+					if class == 0 {
+						b, hdr = 5.0, 0
+					}
+					stuffed := b
+					if class >= 2 {
+						stuffed = b * float64(ws) / float64(ws-1)
+					}
+					nb := int((float64(total-11) - hdr) / (stuffed + float64(pct)*b/100))
+					d := 5
+					if dense {
+						d = 9
+					}
+					for n := nb - d; n <= nb+d; n++ {
+						if n >= 1 && n <= 3200 {
+							out = append(out, Req{Fam: "aztec", S: mk(class, n), I: []int64{pct, l}, Scheme: -1})
+						}
+					}
+				}
+			}
+		}
+	}
+	// the 64-data-word limit of compact symbols (only compact 4 can exceed it)
+	for _, l := range []int64{-4, 0} {
+		if autoOnly && l != 0 {
+			continue
+		}
+		for _, pct := range []int64{0, 5, 10, 14, 16} {
+			for class, centre := range []int{102, 61, 54, 54, 56} {
+				for n := centre - 9; n <= centre+9; n++ {
+					out = append(out, Req{Fam: "aztec", S: mk(class, n), I: []int64{pct, l}, Scheme: -1})
+				}
+			}
+		}
+	}
+	return out
 }
